@@ -530,8 +530,122 @@ func runC15(c *Ctx) *Violation {
 	return nil
 }
 
+// canonicalGob encodes {"k1":v1,"k2":v2,"k3":v3} until encoding/gob happens to
+// walk the top-level map in ascending key order, which makes the bytes a function
+// of the content only (gob walks maps in hash order; 400 tries cannot all miss).
+func canonicalGob(m mxj.Map, keys []string) []byte {
+	for try := 0; try < 400; try++ {
+		g, err := m.Gob()
+		if err != nil {
+			return nil
+		}
+		last, ok := -1, true
+		for _, k := range keys {
+			i := bytes.Index(g, []byte(k))
+			if i < last {
+				ok = false
+				break
+			}
+			last = i
+		}
+		if ok {
+			return g
+		}
+	}
+	return nil
+}
+
+// runC15GobMulti: a multi-key top-level Map whose later entries are damaged, so that
+// encoding/gob fails after it has already stored earlier entries.  NewMapGob must
+// then return an error and no partially filled Map.
+func runC15GobMulti(c *Ctx) *Violation {
+	t := c.T
+	keys := []string{"k1", "k2", "k3"}
+	m := mxj.Map{}
+	var descr []string
+	for _, k := range keys {
+		doc := genJSONDoc(t, JSONOpts{SingleKey: true, MaxDepth: 3})
+		var v mxj.Map
+		var err error
+		if vv := safely(c, "gen", func() { v, err = mxj.NewMapJson([]byte(doc)) }); vv != nil || err != nil {
+			return nil
+		}
+		if strings.Contains(doc, "k1") || strings.Contains(doc, "k2") || strings.Contains(doc, "k3") {
+			return nil
+		}
+		m[k] = map[string]interface{}(v)
+		descr = append(descr, k+":"+doc)
+	}
+	g := canonicalGob(m, keys)
+	if g == nil {
+		return nil
+	}
+	c.Put("map", strings.Join(descr, " "))
+	i2 := bytes.Index(g, []byte("k2"))
+	if i2 < 0 {
+		return nil
+	}
+	// damage only bytes of literal strings that come after the second key
+	var spots []int
+	lits := append(append([]string{"map[string]interface {}", "[]interface {}", "k3"}, jsonKeys...), jsonStrs...)
+	for _, l := range lits {
+		if len(l) == 0 {
+			continue
+		}
+		for from := i2; ; {
+			i := bytes.Index(g[from:], []byte(l))
+			if i < 0 {
+				break
+			}
+			for k := 0; k < len(l); k++ {
+				spots = append(spots, from+i+k)
+			}
+			from += i + len(l)
+		}
+	}
+	for i := 0; i < 16 && len(spots) > 0; i++ {
+		c.Eval()
+		y := append([]byte(nil), g...)
+		p := spots[t.Draw(len(spots))]
+		nb := byte(t.Draw(256))
+		if y[p] == nb {
+			nb ^= 1
+		}
+		y[p] = nb
+		if t.Draw(3) == 2 {
+			y = y[:i2+t.Draw(len(y)-i2)]
+		}
+		c.C["fault.gob_corruption_after_first_entry"]++
+		c.Distinct("nontrivial", fnvOff.Bytes(y))
+		var back mxj.Map
+		var err error
+		if v := safely(c, "NewMapGob", func() { back, err = mxj.NewMapGob(y) }); v != nil {
+			c.Put("gob_input", fmt.Sprintf("%x", y))
+			return v
+		}
+		c.Event("gobm %x -> %v %d", uint64(fnvOff.Bytes(y)), err, len(back))
+		c.C["probe.gob_partial_checked"]++
+		if err != nil && len(back) != 0 {
+			c.Put("gob_input", fmt.Sprintf("%x", y))
+			return &Violation{"C15.t3-gob-partial-map", fmt.Sprintf("NewMapGob returned err=%v together with a partially decoded Map %s", err, clip(Canon(back), 300))}
+		}
+		if err == nil {
+			if v := encodeAll(c, "NewMapGob", back); v != nil {
+				return v
+			}
+		}
+	}
+	if c.sample == nil {
+		c.sample = map[string]interface{}{"kind": "gob: damage after the first entry of a 3-key Map", "map": clip(strings.Join(descr, " "), 200), "gob_bytes": len(g)}
+	}
+	return nil
+}
+
 func runC15Gob(c *Ctx) *Violation {
 	t := c.T
+	if t.Draw(2) == 1 {
+		return runC15GobMulti(c)
+	}
 	// single-key objects only: encoding/gob walks maps in hash order, so only such
 	// values have one encoding and hence a replayable corruption
 	doc := genJSONDoc(t, JSONOpts{SingleKey: true, MaxDepth: 5})
